@@ -215,6 +215,20 @@ def run(chk, prog):
                             ok = bool(lits) and min(lits) <= 30000.
                         elif r.get("k") == "Ref" and capped.get(C.ref_key(r)):
                             ok = True
+                        elif r.get("k") == "Cond":
+                            # min written as a conditional expression: (v < L) ? v : L and its variants
+                            cc = C.strip_casts(r["c"])
+                            x1, y1 = C.strip_casts(r["a"]), C.strip_casts(r["b"])
+                            if cc.get("k") == "Bin" and cc["op"] in ("<", "<=", ">", ">="):
+                                ca, cb = C.strip_casts(cc["a"]), C.strip_casts(cc["b"])
+                                lit = [z for z in (ca, cb) if z.get("k") in ("Float", "Int")]
+                                var = [z for z in (ca, cb) if z.get("k") == "Ref"]
+                                if len(lit) == 1 and len(var) == 1 and float(lit[0]["v"]) <= 30000.:
+                                    L = float(lit[0]["v"])
+                                    var_less = (cc["op"] in ("<", "<=")) == (ca is var[0])     # condition true  <=>  var below L
+                                    lo_arm, hi_arm = (x1, y1) if var_less else (y1, x1)         # arm taken when var < L / otherwise
+                                    ok = lo_arm.get("k") == "Ref" and C.ref_key(lo_arm) == C.ref_key(var[0]) and \
+                                        hi_arm.get("k") in ("Float", "Int") and float(hi_arm["v"]) == L
                     capped[k] = ok
                 for x in C.walk(a):
                     if C.is_call(x) and x.get("pt"):
